@@ -1,4 +1,5 @@
 import Iec.Props.C08
+import Iec.Lemmas.Cli104Life
 /-
 C18 — Connection lifecycle, accounting and event notifications are consistent.
 
@@ -14,8 +15,12 @@ resource (client: closed/failed exactly once per attempt).
 alternate).  The global statements (event grammar per connection, counter = used slots
 after every tick) are checked on every operation of the correspondence run by the harness
 oracle on the real structures, and LeakSanitizer + the simulated HAL's live-object counters
-check create/start/stop/destroy cycles of the episodes.  Not covered: the threaded server's
-stop/restart accounting, the client life cycle.
+check create/start/stop/destroy cycles of the episodes (threadless stop + restart: operation `s.restart`, model
+`Iec.Srv104.restart`; threaded server: accounting oracle of harness/locks_dyn.c).
+Client: `client_reports_end_exactly_once` - for EVERY history of a connection attempt (thread steps, peer and clock
+changes, application sends, in any order) the attempt reports OPENED at most once and first, then exactly one of
+CLOSED / FAILED, nothing after (`Lemmas/Cli104Life.lean`: invariant `LifeInv`, `step_spec`, `attempt_life`); tied by
+the client differential.
 -/
 namespace Iec.Props.C18
 open Iec.Srv104
@@ -41,5 +46,23 @@ every operation by the harness oracle. -/
 theorem refused_accept_keeps_counter (s : Slave) (hl : 1 ≤ s.p.maxOpen) (hfull : (s.p.maxOpen : Int) ≤ s.openConnections) :
     (accept s).openConnections = s.openConnections ∧ (accept s).log = s.log := by
   rw [Iec.Props.C08.limit_refuses s hl hfull]; exact ⟨rfl, rfl⟩
+
+/-! ### client: closed / failed exactly once per attempt -/
+section Client
+open Iec.Cli104
+
+/-- **the client reports closed / failed exactly once per connection attempt**: after `connectAsync`, whatever the
+connection thread, the peer, the clock and the application do and in whatever order, the life-cycle events of the
+attempt are: nothing yet (thread before / inside connect), `OPENED` (connected), and once the thread has finished
+either `OPENED, CLOSED` or `FAILED` - and a finished thread does nothing more (`step_spec`, last clause), so nothing
+follows. -/
+theorem client_reports_end_exactly_once (c0 : Cli) (ops : List COp) :
+    LifeInv (life c0.log) (ops.foldl COp.apply (connectAsync c0)) := attempt_life c0 ops
+
+/-- once finished, the thread reports nothing more -/
+theorem client_finished_is_final (c : Cli) (h : c.phase = 4) : Iec.Cli104.step c = c :=
+  (step_spec c).2.2.2 (by omega) (by omega) (by omega)
+
+end Client
 
 end Iec.Props.C18
